@@ -1,6 +1,7 @@
 import Driver.Util
 import Driver.C13
 import Driver.C07
+import Driver.C05
 import Driver.C18
 import Driver.C14
 import Driver.C15
@@ -9,11 +10,15 @@ import Driver.C17
 import Driver.C09
 import Driver.C08
 import Driver.C16
+import Driver.C03
+import Driver.C10
+import Driver.C02
 
 def main (args : List String) : IO UInt32 := do
   let stdin ← IO.getStdin
   let stdout ← IO.getStdout
   match args with
+  | ["c05"] => Driver.loop stdin stdout Driver.C05.step {}; return 0
   | ["c07"] => Driver.loop stdin stdout Driver.C07.step {}; return 0
   | ["c13"] => Driver.loop stdin stdout Driver.C13.step {}; return 0
   | ["c18"] => Driver.loop stdin stdout Driver.C18.step {}; return 0
@@ -24,4 +29,7 @@ def main (args : List String) : IO UInt32 := do
   | ["c09"] => Driver.loop stdin stdout Driver.C09.step {}; return 0
   | ["c08"] => Driver.loop stdin stdout Driver.C08.step {}; return 0
   | ["c16"] => Driver.loop stdin stdout Driver.C16.step {}; return 0
+  | ["c03"] => Driver.loop stdin stdout Driver.C03.step (LemoModel.Stable.init 0 0 0); return 0
+  | ["c10"] => Driver.loop stdin stdout Driver.C10.step {}; return 0
+  | ["c02"] => Driver.loop stdin stdout Driver.C02.step {}; return 0
   | _ => IO.eprintln s!"unknown model {args}"; return 2
